@@ -269,6 +269,38 @@ class Ctx:
         return out
 
     # --------------------------------------------------------------- verdicts
+    def reproduce(self, validate, items, it, clause, same=lambda a, b: True, ks=(40, 400)):
+        """Re-run a failing item on a fresh harness process: alone first; if it does not fail alone, once
+        more behind the items that preceded it in the original run (state carried from one instance to
+        the next inside one process is what some properties are about).  Returns (None, []) /
+        ("alone", []) / ("after_predecessors", [predecessor items])."""
+        again = validate(self, [dict(it, id="re")])
+        if again and any(a[1] == clause for a in again):
+            return "alone", []
+        idx = next((k for k, x in enumerate(items) if x is it or x.get("id") == it.get("id")), None)
+        if idx is None:
+            return None, []
+        for k in ks:
+            pre = [x for x in items[max(0, idx - k):idx] if same(x, it)]
+            if not pre:
+                break
+            batch = [dict(x, id="pre%d" % n) for n, x in enumerate(pre)] + [dict(it, id="re")]
+            again = validate(self, batch)
+            if any(a[0].get("id") == "re" and a[1] == clause for a in again):
+                # shrink: the shortest suffix of predecessors that still reproduces (halving)
+                while len(pre) > 1:
+                    half = pre[len(pre) // 2:]
+                    b2 = [dict(x, id="pre%d" % n) for n, x in enumerate(half)] + [dict(it, id="re")]
+                    r2 = validate(self, b2)
+                    if any(a[0].get("id") == "re" and a[1] == clause for a in r2):
+                        pre = half
+                    else:
+                        break
+                return "after_predecessors", pre
+            if idx - k <= 0:
+                break
+        return None, []
+
     def violation(self, case, clause, detail=None):
         """Record a violation observed on the REAL code (caller has reproduced it)."""
         kf = match_known(self.prop, clause, case, detail)
